@@ -68,6 +68,11 @@ class StmtMixin:
                     cur = VSeq(z3.Empty(z3.SeqSort(z3.IntSort())), "int")
                 elif isinstance(a, VRec):
                     cur = VSeq(z3.Empty(z3.SeqSort(ty.kind_sort(a.cls))), a.cls)
+                elif isinstance(a, (VRef, VNone)):
+                    cur = self.heap.new_list([])
+                    env.owner(name).vars[name] = cur
+                    self.heap.append(cur, a, st)
+                    return
                 else:
                     self.oos(st, f"append of {type(a).__name__} to untyped list")
             else:
@@ -139,6 +144,8 @@ class StmtMixin:
                     hint = ty.SeqOf("str")
                 elif ann in ("list[int]",):
                     hint = ty.SeqOf("int")
+                elif ann.startswith("list[") and self.path.heap:
+                    hint = ty.ListRef()  # list of objects: a heap list (identity matters)
             if hint is not None:
                 v = self.empty_of_type(hint)
         self.bind_target(st.target, v, env, st)
@@ -565,6 +572,13 @@ class StmtMixin:
                 e2.vars[var] = VInt(jv)
                 t = sub.truth(sub.ev(ast.parse(cl, mode="eval").body, e2))
                 self.ctx.oblige(self.path, "pre@callsite", f"{c.name}: forall {var}. {cl} @L{getattr(node, 'lineno', 0)}", t, node)
+        ca = self.site_asserts(c.qualname, node) + self.site_asserts(c.name, node) if c.name != c.qualname else self.site_asserts(c.name, node)
+        if ca and not self.pure:
+            aenv = self.E.Env(parent=env)
+            aenv.vars.update(cenv.vars)
+            for cl in ca:
+                t = sub.truth(sub.ev(ast.parse(cl, mode="eval").body, aenv))
+                self.ctx.oblige(self.path, "assert@callsite", f"{c.name}: {cl} @L{getattr(node, 'lineno', 0)}", t, node)
         outcomes = ["ok"] + sorted(c.exsures)
         k = 0 if self.pure else self.path.choose(len(outcomes))
         out = outcomes[k]
@@ -584,6 +598,17 @@ class StmtMixin:
             self.path.assume(t, check=False)
         self.path.assume(z3.BoolVal(True))
         return res
+
+    def site_asserts(self, key, node):
+        """call_asserts entries for this call site: 'callee' (every site) or 'callee#k' (k-th site in source order)."""
+        ca = self.ctx.contract.call_asserts
+        out = list(ca.get(key, []))
+        ordn = getattr(self, "call_ordinals", {}).get(id(node))
+        if ordn is not None:
+            out += ca.get(f"{ordn[0]}#{ordn[1]}", [])
+            if ordn[0] != key:
+                out += ca.get(f"{key}#{ordn[1]}", [])
+        return out
 
     def construct(self, mod, cls_node, args, kwargs, node, env):
         name = cls_node.name
@@ -644,6 +669,18 @@ def verify_contract(contract: Contract, registry: dict, *, max_paths=6000) -> Fu
         return res
     loops = loops_in(fn)
     loop_index = {id(n): i for i, n in enumerate(loops)}
+    call_ordinals = {}
+    counts = {}
+
+    class _CV(ast.NodeVisitor):
+        def visit_Call(self, n):
+            key = ast.unparse(n.func)
+            k = counts.get(key, 0)
+            counts[key] = k + 1
+            call_ordinals[id(n)] = (key, k)
+            self.generic_visit(n)
+
+    _CV().visit(fn)
     closure_fx = E.closure_effects(fn)
     pending = [[]]
     pid = 0
@@ -657,6 +694,7 @@ def verify_contract(contract: Contract, registry: dict, *, max_paths=6000) -> Fu
             path = E.Path(ctx, oracle, pid)
             ev = Evaluator(ctx, path, fn_name=contract.name)
             ev.loop_index = loop_index
+            ev.call_ordinals = call_ordinals
             ev.closure_fx = closure_fx
             _run_path(ev, ctx, path, contract, mod, fn, res)
             tr = oracle.trace
